@@ -54,6 +54,15 @@ type EndCfg struct {
 	GoPool bool `json:"goPool,omitempty"`
 }
 
+// bwTimeout: 0 = the default 3 s, a negative value = a block-wise transfer timeout of exactly 0
+// (documented as: state expires at the next housekeeping tick)
+func bwTimeout(c EndCfg) time.Duration {
+	if c.BwTimeoutMs < 0 {
+		return 0
+	}
+	return time.Duration(def(c.BwTimeoutMs, 3000)) * time.Millisecond
+}
+
 type Op struct {
 	Kind       string `json:"kind"` // post | put | get | delete | write | observe | cancelobs | ping | sleep | close | closesrv
 	Up         int    `json:"up,omitempty"`
@@ -430,7 +439,7 @@ func Run(t *testing.T, sc Scenario, track bool) (tr Trace) {
 				}
 				cc = endpoints.UDP(end, append([]udp.Option{
 					options.WithMessagePool(p), options.WithPeriodicRunner(tk.Runner()), options.WithErrors(errs.Add),
-					options.WithBlockwise(c.Blockwise, szx(c.SZX), time.Duration(def(c.BwTimeoutMs, 3000))*time.Millisecond),
+					options.WithBlockwise(c.Blockwise, szx(c.SZX), bwTimeout(c)),
 					options.WithMaxMessageSize(uint32(def(c.MaxMsg, 65536))), options.WithMTU(uint16(min(def(c.MaxMsg, 65536), 65000))),
 					options.WithReceivedMessageQueueSize(c.Queue),
 					options.WithTransmission(uint32(def(c.NStart, 8)), time.Duration(def(c.AckTimeoutMs, 2000))*time.Millisecond, uint32(def(c.MaxRetransmit, 4))),
@@ -466,7 +475,7 @@ func Run(t *testing.T, sc Scenario, track bool) (tr Trace) {
 			mk := func(end *memnet.StreamEnd, c EndCfg, errs *endpoints.Errs, p *pool.Pool, side string) *tcpClient.Conn {
 				cc, err := endpoints.TCP(end, []tcp.Option{
 					options.WithMessagePool(p), options.WithPeriodicRunner(tk.Runner()), options.WithErrors(errs.Add),
-					options.WithBlockwise(c.Blockwise, szx(c.SZX), time.Duration(def(c.BwTimeoutMs, 3000))*time.Millisecond),
+					options.WithBlockwise(c.Blockwise, szx(c.SZX), bwTimeout(c)),
 					options.WithMaxMessageSize(uint32(def(c.MaxMsg, 65536))),
 					options.WithReceivedMessageQueueSize(c.Queue), options.WithCloseSocket(),
 					options.WithLimitClientParallelRequest(lim(c)), options.WithLimitClientEndpointParallelRequest(lim(c)),
